@@ -18,7 +18,7 @@ def tok(x):
 
 def gheader_sx(pf, extra_ratio=0):
     nl = pf.nlevels
-    return [[b"HyperCLaw-V1.1"], [f.encode() for f in pf.fields], pf.ndims, tok(pf.time), nl - 1,
+    return [[getattr(pf, 'version', 'HyperCLaw-V1.1').encode()], [f.encode() for f in pf.fields], pf.ndims, tok(pf.time), nl - 1,
             [tok(x) for x in pf.geo_low], [tok(x) for x in pf.geo_high()],
             [2] * (nl - 1 + extra_ratio),
             [[s - 1 for s in pf.grid_size(lv)] for lv in range(nl)],
@@ -91,6 +91,7 @@ def fhex(x):
 
 def impl_view(pck, header_only, maxmins):
     v = dict(
+        version=str(pck.version).strip(),
         fields=list(pck.fields.keys()), field_idx=[int(i) for i in pck.fields.values()],
         ndims=int(pck.ndims), time=fhex(pck.time), max_level=int(pck.max_level), limit=int(pck.limit_level),
         geo_low=[fhex(x) for x in pck.geo_low], geo_high=[fhex(x) for x in pck.geo_high],
@@ -123,6 +124,7 @@ def model_view(opened, cellhs, path, header_only, maxmins):
     g, keys, limit, lvs = opened
     ver, names, ndims, time, maxlv, lo, hi, factors, grid, steps, dx, sys_ = g
     v = dict(
+        version=b' '.join(ver).decode(),
         fields=[k.decode() for k in keys], field_idx=list(range(len(keys))),
         ndims=ndims, time=ftok(time), max_level=maxlv, limit=limit,
         geo_low=[ftok(x) for x in lo], geo_high=[ftok(x) for x in hi], factors=factors,
@@ -151,6 +153,7 @@ def oracle_view(pf, path, limit, header_only, maxmins, extra_ratio):
     keys = c01.reader_keys(pf.fields)
     nl = pf.nlevels
     v = dict(
+        version=getattr(pf, 'version', 'HyperCLaw-V1.1'),
         fields=keys, field_idx=list(range(len(keys))), ndims=pf.ndims, time=fhex(pf.time), max_level=nl - 1,
         limit=limit, geo_low=[fhex(x) for x in pf.geo_low], geo_high=[fhex(x) for x in pf.geo_high()],
         factors=[2] * (nl - 1 + extra_ratio), grid_sizes=[pf.grid_size(lv) for lv in range(nl)],
@@ -209,6 +212,11 @@ def run_case(seed):
 
     pf = gen.gen_plotfile(rng, allow_repeat=True, max_blocks=2, payload=rng.choice(['ints', 'random']), awkward=0.3, odd0=0.25, odd_names=0.25, domain_first=0.2)
     extra_ratio = rng.choice([0, 0, 1, 2])
+    rv = random.Random(seed * 4721 + 3)
+    if rv.random() < 0.25:
+        # the first Header line is the writing application's version name: any word
+        pf.version = rv.choice(['NavierStokes-V1.1', 'CartGrid-V2.0', 'HyperCLaw-V1.2', 'MyApp-V1.1', 'plt'])
+    count(f"version line={getattr(pf, 'version', 'HyperCLaw-V1.1')}")
     path = core.scratch_dir(f"c02_{seed}")
     htext, ctexts = write_from_model(pf, path, model, rng, extra_ratio)
     count(f"ndims={pf.ndims}")
